@@ -1459,7 +1459,7 @@ fn compile_operator_arm(depth: u8, op_expr: &SExpr, ops: &mut Vec<OpCode>, s: &P
         r is Ok ==> compiles(*op_expr, depth, old(ops)@, final(ops)@),
         r is Ok ==> final(ops)@.len() <= 0x0FFF,
 //@@ after-re 1 /ops\.push\(OpCode::new_bool\([^;]*\)\);/
-    let ghost base = placeholder_index as int;
+    let ghost base = ops@.len() - 1;   // the index just pushed (no reference to the local's name)
     let ghost ops0 = old(ops)@;
     let ghost rest = l@.subrange(1, l@.len() as int);
 //@@ loop 1
